@@ -28,9 +28,10 @@ MANIFEST = {
              "documents the delivered events are compared with the model's `events d`."),
     "note": ("Trusted: Lean kernel + standard axioms; expat/defusedxml (text -> SAX events, error reporting and recovery) is "
              "outside the proof: 'never raises on any DTD-free text' is carried by the byte-level mutation stream; variables "
-             "are string/ui2/boolean typed and get valid values (invalid values are C10's subject); entry names LastChange, "
-             "CurrentTrackMetaData, AVTransportURIMetaData are not generated (recursive expansion / DIDL parsing are outside "
-             "the model); an entry outside any InstanceID element counts for instance 0 in the code (not expressible as an "
+             "are string/ui2/boolean typed and get valid values (invalid values are C10's subject); the entry name LastChange "
+             "is not generated (re-entrant expansion); CurrentTrackMetaData / AVTransportURIMetaData carry valid, empty, "
+             "NOT_IMPLEMENTED and damaged DIDL-Lite (the DIDL parsing itself is outside the model, only 'does not raise' and the "
+             "variable update are judged); an entry outside any InstanceID element counts for instance 0 in the code (not expressible as an "
              "abstract document; kept as a text corpus case); lone surrogates cannot occur in text that came out of an XML parser."),
     "technique": "Lean 4 proof (fold invariant, induction over documents) + model/implementation correspondence with recorded SAX events",
 }
@@ -47,7 +48,7 @@ EXHAUSTIVE = {"quick": False, "thorough": False}
 ASSUMPTIONS = [
     "local names and prefixes contain no colon; the root element carries no val attribute; an unprefixed entry is not named InstanceID (WF in Props/C19.lean)",
     "service variables are string (any value), ui2 and boolean (valid canonical values only)",
-    "entries are not named LastChange / CurrentTrackMetaData / AVTransportURIMetaData",
+    "entries are not named LastChange (re-entrant expansion) or InstanceID",
     "event values are str without lone surrogates and without DTD declarations",
 ]
 TRUSTED = ["C19: expat/defusedxml SAX delivery and error recovery (observed through a tee handler, not modelled); generated MediaRenderer description"]
@@ -56,7 +57,8 @@ BASE = "http://dmr:1"
 RC_VARS = [("Volume", "ui2"), ("Mute", "boolean"), ("PresetNameList", "string"), ("Brightness", "string"),
            ("X_Vendor.Mode", "string"), ("Loudness", "string")]
 AVT_VARS = [("TransportState", "string"), ("CurrentTrackURI", "string"), ("TransportStatus", "string"),
-            ("CurrentTransportActions", "string"), ("NumberOfTracks", "string"), ("Volume", "string")]
+            ("CurrentTransportActions", "string"), ("NumberOfTracks", "string"), ("Volume", "string"),
+            ("CurrentTrackMetaData", "didl"), ("AVTransportURIMetaData", "didl")]
 SERVICES = {
     "RC": ("urn:schemas-upnp-org:service:RenderingControl:1", "urn:upnp-org:serviceId:RenderingControl", RC_VARS),
     "AVT": ("urn:schemas-upnp-org:service:AVTransport:1", "urn:upnp-org:serviceId:AVTransport", AVT_VARS),
@@ -66,7 +68,8 @@ SERVICES = {
 
 
 def scpd(vars_: List[Tuple[str, str]]) -> str:
-    sv = "".join(f'<stateVariable sendEvents="no"><name>{n}</name><dataType>{t}</dataType></stateVariable>' for n, t in vars_)
+    sv = "".join(f'<stateVariable sendEvents="no"><name>{n}</name><dataType>{"string" if t == "didl" else t}</dataType></stateVariable>'
+                 for n, t in vars_)
     return ('<?xml version="1.0"?><scpd xmlns="urn:schemas-upnp-org:service-1-0"><specVersion><major>1</major><minor>0</minor>'
             '</specVersion><actionList></actionList><serviceStateTable><stateVariable sendEvents="yes"><name>LastChange</name>'
             f"<dataType>string</dataType></stateVariable>{sv}</serviceStateTable></scpd>")
@@ -160,7 +163,27 @@ CHANNELS = [None, None, None, "Master", "Master", "LF", "RF", "", "master"]
 IDS = ["0"] * 8 + ["1", "2", "3", "10", "4294967295", "", "00"]
 
 
+DIDL_OK = ('<DIDL-Lite xmlns="urn:schemas-upnp-org:metadata-1-0/DIDL-Lite/" xmlns:dc="http://purl.org/dc/elements/1.1/" '
+           'xmlns:upnp="urn:schemas-upnp-org:metadata-1-0/upnp/"><item id="1" parentID="0" restricted="1"><dc:title>T &amp; é</dc:title>'
+           "<upnp:class>object.item.audioItem.musicTrack</upnp:class><res>http://h/a.mp3</res></item></DIDL-Lite>")
+
+
 def gen_value(rng: random.Random, dtype: str) -> str:
+    if dtype == "didl":   # what renderers put into CurrentTrackMetaData / AVTransportURIMetaData
+        c = rng.randrange(8)
+        if c < 2:
+            return DIDL_OK
+        if c == 2:
+            return "NOT_IMPLEMENTED"
+        if c == 3:
+            return ""
+        if c == 4:
+            return DIDL_OK[:rng.randrange(1, len(DIDL_OK))]        # truncated
+        if c == 5:
+            return DIDL_OK.replace("</item>", "", 1)               # unbalanced
+        if c == 6:
+            return rng.choice(["<DIDL-Lite", "junk", "<a/>", "&", "<DIDL-Lite xmlns=\"urn:schemas-upnp-org:metadata-1-0/DIDL-Lite/\"/>"])
+        return DIDL_OK.replace("object.item.audioItem.musicTrack", rng.choice(["object.bogus", "", "object.item"]))
     if dtype == "ui2":
         return str(rng.choice([0, 1, 7, 42, 100, 65535]))
     if dtype == "boolean":
@@ -179,7 +202,7 @@ def gen_doc(rng: random.Random, svc_key: str) -> Dict[str, Any]:
             else:
                 name, dtype = rng.choice(vars_)
             entries.append({"pfx": rng.choice(PREFIXES), "name": name, "chan": rng.choice(CHANNELS), "val": gen_value(rng, dtype)})
-        insts.append({"id": rng.choice(IDS), "entries": entries})
+        insts.append({"id": rng.choice(IDS), "entries": entries, "ipfx": rng.choice([None, None, None, "rcs", "avt", "x-y"])})
     root = rng.choice([[], [["xmlns", "urn:schemas-upnp-org:metadata-1-0/RCS/"]],
                        [["xmlns", "urn:schemas-upnp-org:metadata-1-0/AVT/"], ["xmlns:rcs", "urn:x"], ["xmlns:avt", "urn:y"]]])
     return {"kind": "doc", "svc": svc_key, "root": root, "ops": insts, "style": rng.randrange(0, 2**30),
@@ -225,21 +248,28 @@ def render(doc: Dict[str, Any]) -> str:
     parts = [rng.choice(["", "", "", '<?xml version="1.0"?>', f'<?xml version="1.0" encoding="{enc}"?>\n',
                          f"<?xml version='1.0' encoding='{enc}' standalone='yes'?>"])]
     parts.append(f"<Event{attrs([tuple(p) for p in doc['root']])}>")
+    def entry_xml(e):
+        qn = (e["pfx"] + ":" if e["pfx"] else "") + e["name"]
+        at = [("val", e["val"])] + ([("channel", e["chan"])] if e["chan"] is not None else [])
+        return f"<{qn}{attrs(at)}/>" if rng.randrange(3) else f"<{qn}{attrs(at)}></{qn}{rng.choice(['', ' '])}>"
+
+    for e in doc.get("loose", []):      # entries directly under Event, before the first instance
+        parts.append(ws())
+        parts.append(entry_xml(e))
     for inst in doc["ops"]:
         parts.append(ws())
+        iq = (inst["ipfx"] + ":" if inst.get("ipfx") else "") + "InstanceID"
         if not inst["entries"] and rng.randrange(2):
-            parts.append(f"<InstanceID{attrs([('val', inst['id'])])}/>")
+            parts.append(f"<{iq}{attrs([('val', inst['id'])])}/>")
             continue
-        parts.append(f"<InstanceID{attrs([('val', inst['id'])])}>")
+        parts.append(f"<{iq}{attrs([('val', inst['id'])])}>")
         for e in inst["entries"]:
             parts.append(ws())
             if rng.randrange(0, 10) == 0:
                 parts.append("<!-- c -->")
-            qn = (e["pfx"] + ":" if e["pfx"] else "") + e["name"]
-            at = [("val", e["val"])] + ([("channel", e["chan"])] if e["chan"] is not None else [])
-            parts.append(f"<{qn}{attrs(at)}/>" if rng.randrange(3) else f"<{qn}{attrs(at)}></{qn}{rng.choice(['', ' '])}>")
+            parts.append(entry_xml(e))
         parts.append(ws())
-        parts.append("</InstanceID>")
+        parts.append(f"</{iq}>")
     parts.append(ws())
     parts.append("</Event>")
     parts.append(rng.choice(["", "", "\n"]))
@@ -314,12 +344,18 @@ def run_value(cid: str, recipe: Dict[str, Any], text: Optional[str], doc: Option
     svc.notify_changed_state_variables(dict(init))
     svc.on_event = saved
     lines = [f"var {tok_str(n)} {tok_str(v)}" for n, v in init.items()]
+    others = [sv for o in e["device"].services.values() if o is not svc for sv in o.state_variables.values()]
+    others_before = [sv.value_unchecked for sv in others]
     tags = set()
     nontrivial = False
     if doc is not None:
         lines.append(f"doc {fmt_attrs(sorted(tuple(p) for p in doc['root']))}")
+        for en in doc.get("loose", []):
+            lines.append(f"lentry {opt_tok(en['pfx'])} {tok_str(en['name'])} {opt_tok(en['chan'])} {tok_str(en['val'])}")
+            tags.add("loose-entry")
         for inst in doc["ops"]:
-            lines.append(f"inst {tok_str(inst['id'])}")
+            lines.append(f"inst {tok_str(inst['id'])} {opt_tok(inst.get('ipfx'))}")
+            tags.add("ipfx:" + ("yes" if inst.get("ipfx") else "no"))
             for en in inst["entries"]:
                 lines.append(f"entry {opt_tok(en['pfx'])} {tok_str(en['name'])} {opt_tok(en['chan'])} {tok_str(en['val'])}")
                 tags.add("chan:" + ("absent" if en["chan"] is None else en["chan"] or "empty"))
@@ -365,6 +401,7 @@ def run_value(cid: str, recipe: Dict[str, Any], text: Optional[str], doc: Option
     lines.append(f"raised {raised}")
     for n, _ in vars_:
         lines.append(f"after {tok_str(n)} {tok_str(svc.state_variable(n).upnp_value)}")
+    lines.append("others " + ("unchanged" if [sv.value_unchecked for sv in others] == others_before else "CHANGED"))
     for names in e["log"]:
         lines.append(f"cb {','.join(tok_str(n) for n in names) or '~'}")
     tags.add(f"cbs:{len(e['log'])}")
@@ -431,7 +468,7 @@ def _chunk(args):
 def generate(ctx: Ctx) -> List[Case]:
     rng = ctx.rng
     n_docs = 40000 if ctx.thorough else 2000
-    n_mut = 200000 if ctx.thorough else 5000
+    n_mut = 180000 if ctx.thorough else 5000
     if ctx.thorough and getattr(ctx, "search", False):
         n_docs, n_mut = 10000, 30000
     jobs: List[Tuple[dict, str]] = [(rec, f"corpus{i}") for i, rec in enumerate(CORPUS)]
@@ -439,6 +476,17 @@ def generate(ctx: Ctx) -> List[Case]:
     for _ in range(n_docs):
         d = gen_doc(rng, rng.choice(["RC", "RC", "AVT"]))
         jobs.append((d, f"d{i}"))
+        i += 1
+    # entries directly under Event (outside any InstanceID): the text says they are not children of instance 0;
+    # the code counts them for instance 0 (open known finding F19c) -- a dedicated stream so that nothing else is masked
+    for _ in range(1500 if ctx.thorough else 40):
+        d = gen_doc(rng, rng.choice(["RC", "AVT"]))
+        vars_ = SERVICES[d["svc"]][2]
+        d["loose"] = []
+        for _k in range(rng.choice([1, 1, 2])):
+            name, dtype = rng.choice(vars_)
+            d["loose"].append({"pfx": rng.choice(PREFIXES), "name": name, "chan": rng.choice(CHANNELS), "val": gen_value(rng, dtype)})
+        jobs.append((d, f"l{i}"))
         i += 1
     for _ in range(n_mut):
         # byte damage can invalidate ui2/boolean values (C10's subject): the mutation stream targets the
@@ -457,4 +505,6 @@ def generate(ctx: Ctx) -> List[Case]:
 
 
 def signature(case: Case, verdict) -> str:
-    return f"C19 {(case.recipe or {}).get('kind', '?')} {verdict.notes[:300]}"
+    rec = case.recipe or {}
+    kind = rec.get("kind", "?") + (" loose-entries" if rec.get("loose") else "")
+    return f"C19 {kind} {verdict.notes[:300]}"
